@@ -12,11 +12,11 @@ const EQ4: [u32; 4] = [1, 1, 1, 1];
 #[kani::unwind(10)]
 fn c03_make_vote_no_tc() {
     let mut env = mk_core(0, &EQ4);
-    let lv: Round = kani::any();
+    let lv: Round = vwit::any_u64();
     env.core.last_voted_round = lv;
-    let round: Round = kani::any();
-    let qcr: Round = kani::any();
-    kani::assume(round < u64::MAX && qcr < u64::MAX);
+    let round: Round = vwit::any_u64();
+    let qcr: Round = vwit::any_u64();
+    vwit::assume(round < u64::MAX && qcr < u64::MAX);
     let block = blk(1, round, any_digest(), qcr);
     let v = run_ready(env.core.make_vote(&block));
     let ok = round > lv && qcr + 1 == round;
@@ -30,8 +30,8 @@ fn c03_make_vote_no_tc() {
     } else {
         assert!(env.core.last_voted_round == lv);
     }
-    kani::cover!(v.is_some());
-    kani::cover!(v.is_none() && round > lv);
+    vwit::cover!(v.is_some());
+    vwit::cover!(v.is_none() && round > lv);
     std::mem::forget(v);
     std::mem::forget(block);
     std::mem::forget(env);
@@ -42,13 +42,13 @@ fn c03_make_vote_no_tc() {
 #[kani::unwind(10)]
 fn c03_make_vote_tc() {
     let mut env = mk_core(0, &EQ4);
-    let lv: Round = kani::any();
+    let lv: Round = vwit::any_u64();
     env.core.last_voted_round = lv;
-    let round: Round = kani::any();
-    let qcr: Round = kani::any();
-    let tcr: Round = kani::any();
-    let hq: [Round; 3] = kani::any();
-    kani::assume(round < u64::MAX && qcr < u64::MAX && tcr < u64::MAX);
+    let round: Round = vwit::any_u64();
+    let qcr: Round = vwit::any_u64();
+    let tcr: Round = vwit::any_u64();
+    let hq: [Round; 3] = vwit::any_u64s::<3>();
+    vwit::assume(round < u64::MAX && qcr < u64::MAX && tcr < u64::MAX);
     let mut block = blk(1, round, any_digest(), qcr);
     block.tc = Some(TC {
         round: tcr,
@@ -70,106 +70,254 @@ fn c03_make_vote_tc() {
     } else {
         assert!(env.core.last_voted_round == lv);
     }
-    kani::cover!(v.is_some() && qcr + 1 != round);
-    kani::cover!(v.is_none() && tcr + 1 == round && round > lv);
+    vwit::cover!(v.is_some() && qcr + 1 != round);
+    vwit::cover!(v.is_none() && tcr + 1 == round && round > lv);
     std::mem::forget(v);
     std::mem::forget(block);
     std::mem::forget(env);
 }
 
 // ===================================================================================== C02: commit delivery
-/// Chain c[0] <- ... <- c[N-1] (c[0] extends genesis), strictly increasing symbolic rounds with arbitrary gaps.
-/// The first `j` blocks were delivered before (last_committed_round = round of c[j-1], or 0).
-/// Real `commit(c[N-1])` must deliver exactly c[j..N] oldest first.
-fn commit_chain<const N: usize>() {
+/// One scenario: chain c[0] <- ... <- c[N-1] above genesis with the given rounds, the first `j` blocks delivered
+/// before (last_committed_round = round of c[j-1], or 0). Real `commit(c[N-1])` must deliver exactly c[j..N],
+/// oldest first, nothing else (no duplicate, no genesis placeholder), and be idempotent.
+/// Block contents (payload digest bytes, parent digests, signatures) are symbolic; the rounds are concrete because
+/// they decide the control flow of the ancestor walk (loop count, queue indices): see DESIGN.md, C02.
+fn commit_scenario<const N: usize>(r: [Round; N], j: usize) {
+    store::reset();
     let mut env = mk_core(0, &EQ4);
-    let r: [Round; N] = kani::any();
-    // stack arrays, not Vecs: values read back from heap buffers lose their constant shapes in CBMC
-    let mut chain: [Block; N] = std::array::from_fn(|_| Block::default());
-    let mut dg: [Digest; N] = std::array::from_fn(|_| Digest::default());
-    let mut i = 0;
-    while i < N {
-        kani::assume(r[i] >= 1 && r[i] < (1u64 << 62));
-        if i > 0 {
-            kani::assume(r[i] > r[i - 1]);
-        }
-        let b = if i == 0 { blk(1, r[0], Digest::default(), 0) } else { blk((i % 4) as u8, r[i], dg[i - 1].clone(), r[i - 1]) };
-        let d = b.digest();
-        // collision freedom of the abstract hash on this universe (assumed, see shims/ed25519-dalek)
-        let mut a = 0;
-        while a < i {
-            kani::assume(dg[a] != d);
-            a += 1;
-        }
-        kani::assume(d != Digest::default());
-        env.store.preload(d.to_vec(), bincode::serialize(&b).unwrap());
-        chain[i] = b;
-        dg[i] = d;
-        i += 1;
+    // plain locals (no Vec / array of blocks): values read back from aggregates lose their concrete shapes in CBMC
+    let b0 = blk(1, r[0], Digest::default(), 0);
+    let d0 = b0.digest();
+    env.store.preload(d0.to_vec(), bincode::serialize(&b0).unwrap());
+    let b1 = if N > 1 { blk(2, r[1 % N], d0.clone(), r[0]) } else { Block::default() };
+    let d1 = b1.digest();
+    if N > 1 {
+        env.store.preload(d1.to_vec(), bincode::serialize(&b1).unwrap());
+    }
+    let b2 = if N > 2 { blk(3, r[2 % N], d1.clone(), r[1 % N]) } else { Block::default() };
+    let d2 = b2.digest();
+    if N > 2 {
+        env.store.preload(d2.to_vec(), bincode::serialize(&b2).unwrap());
+    }
+    let b3 = if N > 3 { blk(0, r[3 % N], d2.clone(), r[2 % N]) } else { Block::default() };
+    let d3 = b3.digest();
+    if N > 3 {
+        env.store.preload(d3.to_vec(), bincode::serialize(&b3).unwrap());
     }
     // the i-th parent lookup of the ancestor walk resolves to slot N-2-i (asserted by the store shim)
-    let mut sc = [0i8; N];
-    let mut q = 0;
-    while q + 1 < N {
-        sc[q] = (N - 2 - q) as i8;
-        q += 1;
+    match N {
+        1 => store::script_strict(&[]),
+        2 => store::script_strict(&[0]),
+        3 => store::script_strict(&[1, 0]),
+        _ => store::script_strict(&[2, 1, 0]),
     }
-    store::script_strict(&sc[..N - 1]);
-    let j: usize = kani::any();
-    kani::assume(j < N);
     let lc = if j == 0 { 0 } else { r[j - 1] };
     env.core.last_committed_round = lc;
-    let res = run_ready(env.core.commit(chain[N - 1].clone()));
+    let head = match N {
+        1 => b0.clone(),
+        2 => b1.clone(),
+        3 => b2.clone(),
+        _ => b3.clone(),
+    };
+    let res = run_ready(env.core.commit(head));
     assert!(res.is_ok());
     assert!(env.core.last_committed_round == r[N - 1]);
-    // delivered sequence == c[j], c[j+1], ..., c[N-1]
     let mut k = j;
     while k < N {
+        let exp = match k {
+            0 => &b0,
+            1 => &b1,
+            2 => &b2,
+            _ => &b3,
+        };
         match env.rx_commit.try_pop() {
             Some(d) => {
-                assert!(d.round == r[k], "delivered out of order / wrong block");
-                assert!(d.qc.hash == chain[k].qc.hash && d.author == chain[k].author, "delivered a different block");
+                assert!(d.round == r[k], "C02 delivered out of chain order");
+                assert!(d.qc.hash == exp.qc.hash && d.author == exp.author, "C02 delivered a different block");
                 std::mem::forget(d);
             }
-            None => assert!(false, "committed block not delivered"),
+            None => assert!(false, "C02 committed block not delivered"),
         }
         k += 1;
     }
-    assert!(env.rx_commit.len() == 0, "extra block delivered (duplicate or genesis placeholder)");
-    kani::cover!(j == 0);
-    kani::cover!(j == N - 1);
-    kani::cover!(j == 0 && r[0] > 1);
-    // committing again (same or older head) delivers nothing
-    let again = run_ready(env.core.commit(chain[N - 1].clone()));
-    assert!(again.is_ok() && env.rx_commit.len() == 0);
+    assert!(env.rx_commit.len() == 0, "C02 extra block delivered (duplicate or genesis placeholder)");
+    let head2 = match N {
+        1 => b0.clone(),
+        2 => b1.clone(),
+        3 => b2.clone(),
+        _ => b3.clone(),
+    };
+    let again = run_ready(env.core.commit(head2));
+    assert!(again.is_ok() && env.rx_commit.len() == 0, "C02 second commit of the same head delivered something");
     std::mem::forget(again);
     std::mem::forget(res);
-    std::mem::forget(chain);
-    std::mem::forget(dg);
+    std::mem::forget((b0, b1, b2, b3, d0, d1, d2, d3));
     std::mem::forget(env);
 }
-#[kani::proof]
-#[kani::unwind(12)]
-#[kani::stub(std::fmt::format, stub_format)]
-fn c02_commit_chain1() { commit_chain::<1>() }
-#[kani::proof]
-#[kani::unwind(12)]
-#[kani::stub(std::fmt::format, stub_format)]
-fn c02_commit_chain2() { commit_chain::<2>() }
-#[kani::proof]
-#[kani::unwind(12)]
-#[kani::stub(std::fmt::format, stub_format)]
-fn c02_commit_chain3() { commit_chain::<3>() }
-#[kani::proof]
-#[kani::unwind(12)]
-#[kani::stub(std::fmt::format, stub_format)]
-fn c02_commit_chain4() { commit_chain::<4>() }
+/// One gap pattern (bit i of PAT set: the step up to block i is GAP rounds instead of 1) and one delivered prefix J.
+fn commit_pattern<const N: usize>(pat: usize, gap: u64, j: usize) {
+    let mut r = [0u64; N];
+    let mut prev = 0u64;
+    let mut i = 0;
+    while i < N {
+        prev += if (pat >> i) & 1 == 1 { gap } else { 1 };
+        r[i] = prev;
+        i += 1;
+    }
+    commit_scenario::<N>(r, j);
+    vwit::cover!(true);
+}
+macro_rules! commit_h {
+    ($name:ident, $n:expr, $pat:expr, $gap:expr, $j:expr) => {
+        #[kani::proof]
+        #[kani::unwind(12)]
+        #[kani::stub(std::fmt::format, stub_format)]
+        fn $name() {
+            commit_pattern::<$n>($pat, $gap, $j)
+        }
+    };
+}
+include!("c02_generated.rs");
+
+// ===================================================================================== process_block (C03, C05, C10)
+/// Environment for one real `process_block(blk)`: stored 2-chain genesis <- b0 <- b1 with concrete rounds (B0R, B1R) and a
+/// concrete delivered watermark LC (they decide the control flow of the commit path); everything about the new block
+/// (round, TC, author) and about the node (round, last_voted_round, high_qc) is symbolic.
+pub(crate) struct PB {
+    pub(crate) env: Env,
+    pub(crate) blk: Block,
+    pub(crate) pre_round: Round,
+    pub(crate) pre_lv: Round,
+    pub(crate) pre_hq: Round,
+}
+pub(crate) fn pb_setup_pub(b0r: Round, b1r: Round, lc: Round) -> PB {
+    pb_setup(b0r, b1r, lc, false)
+}
+fn pb_setup(b0r: Round, b1r: Round, lc: Round, with_tc: bool) -> PB {
+    store::reset();
+    let mut env = mk_core(0, &EQ4);
+    let b0 = blk(1, b0r, Digest::default(), 0);
+    let d0 = b0.digest();
+    env.store.preload(d0.to_vec(), bincode::serialize(&b0).unwrap());
+    let b1 = blk(2, b1r, d0.clone(), b0r);
+    let d1 = b1.digest();
+    env.store.preload(d1.to_vec(), bincode::serialize(&b1).unwrap());
+    vwit::assume(d0 != d1 && d0 != Digest::default() && d1 != Digest::default());
+    // lookups of one process_block: parent(blk) = b1 (slot 1), parent(b1) = b0 (slot 0); nothing else
+    store::script_strict(&[1, 0]);
+    env.core.round = vwit::any_u64();
+    env.core.last_voted_round = vwit::any_u64();
+    env.core.last_committed_round = lc;
+    env.core.high_qc = QC { hash: d1.clone(), round: vwit::any_u64(), votes: Vec::new() };
+    vwit::assume(inv(&env.core));
+    let r: Round = vwit::any_u64();
+    let author: u8 = vwit::any_u8();
+    vwit::assume(r > b1r && r < (1u64 << 62) && author < 4);
+    let mut b = blk(author, r, d1.clone(), b1r);
+    if with_tc {
+        let tcr: Round = vwit::any_u64();
+        let hq: [Round; 3] = vwit::any_u64s::<3>();
+        vwit::assume(tcr < (1u64 << 62));
+        b.tc = Some(TC {
+            round: tcr,
+            votes: vec![
+                (key(0), Signature::default(), hq[0]),
+                (key(1), Signature::default(), hq[1]),
+                (key(2), Signature::default(), hq[2]),
+            ],
+        });
+        b.signature = sig(author, &b.digest());
+    }
+    vwit::assume(b.digest() != d0 && b.digest() != d1);
+    let (pre_round, pre_lv, pre_hq) = (env.core.round, env.core.last_voted_round, env.core.high_qc.round);
+    std::mem::forget((b0, b1, d0, d1));
+    PB { env, blk: b, pre_round, pre_lv, pre_hq }
+}
+/// Did the step emit a vote? Returns Some(vote round) if a Vote left the node (wire) or was self-delivered to the aggregator.
+fn pb_vote_out(pb: &PB) -> Option<Round> {
+    if sent_len() == 1 {
+        assert!(sent_tag(0) == TAG_VOTE, "C03 something other than a vote was sent");
+        Some(sent_u64(0, VOTE_ROUND_OFF))
+    } else {
+        assert!(sent_len() == 0, "C03 more than one message sent by one process_block");
+        None
+    }
+}
+fn process_block_check(b0r: Round, b1r: Round, lc: Round, with_tc: bool) {
+    let mut pb = pb_setup(b0r, b1r, lc, with_tc);
+    let res = run_ready(pb.env.core.process_block(&pb.blk));
+    assert!(res.is_ok());
+    let r = pb.blk.round;
+    // ---- C03: vote decision (observed through last_voted_round and the wire)
+    let (tc_ok, tc_round_ok) = match &pb.blk.tc {
+        Some(tc) => {
+            let m = tc.votes[0].2.max(tc.votes[1].2).max(tc.votes[2].2);
+            (tc.round + 1 == r && b1r >= m, tc.round + 1 == r)
+        }
+        None => (false, false),
+    };
+    let may_vote = r == pb.pre_round && r > pb.pre_lv && (b1r + 1 == r || tc_ok);
+    let next_leader_is_me = (pb.pre_round + 1) % 4 == 0;
+    if may_vote {
+        assert!(pb.env.core.last_voted_round == r, "C03 vote expected: last_voted_round not raised to the block round");
+        if !next_leader_is_me {
+            let v = pb_vote_out(&pb);
+            assert!(v == Some(r), "C03 vote expected on the wire with the block's round");
+            assert!(sent_to(0) == addr(100 + ((pb.pre_round + 1) % 4) as u16), "C09 vote not addressed to the next round's leader");
+        } else {
+            assert!(sent_len() == 0, "C03 self-addressed vote must not hit the wire");
+        }
+    } else {
+        assert!(pb.env.core.last_voted_round == pb.pre_lv, "C03 no vote expected: last_voted_round changed");
+        assert!(sent_len() == 0, "C03 vote emitted although the voting rule forbids it");
+    }
+    let _ = tc_round_ok;
+    // ---- C05: commit exactly on a consecutive-round 2-chain; C02: deliver b0 unless already delivered
+    if b0r + 1 == b1r && lc < b0r {
+        assert!(pb.env.rx_commit.len() >= 1, "C05 consecutive certified 2-chain not committed");
+        let d = pb.env.rx_commit.try_pop().unwrap();
+        assert!(d.round == b0r, "C05 committed block is not the head of the 2-chain");
+        std::mem::forget(d);
+        assert!(pb.env.rx_commit.len() == 0, "C02 extra block delivered");
+        assert!(pb.env.core.last_committed_round == b0r);
+    } else {
+        assert!(pb.env.rx_commit.len() == 0, "C05 commit without a consecutive-round certified 2-chain");
+        assert!(pb.env.core.last_committed_round == lc);
+    }
+    // ---- C10: processing a block (without its certificates) never moves the round or the high QC
+    assert!(pb.env.core.round == pb.pre_round, "C10 round changed by process_block");
+    assert!(pb.env.core.high_qc.round == pb.pre_hq, "C10 high_qc changed by process_block");
+    // the block is stored once
+    assert!(pb.env.store.writes() == 1 && pb.env.store.len() == 3);
+    vwit::cover!(may_vote && !next_leader_is_me);
+    vwit::cover!(may_vote && next_leader_is_me);
+    vwit::cover!(!may_vote && r == pb.pre_round);
+    std::mem::forget(res);
+    std::mem::forget(pb);
+}
+macro_rules! pb_h {
+    ($name:ident, $b0:expr, $b1:expr, $lc:expr, $tc:expr) => {
+        #[kani::proof]
+        #[kani::unwind(12)]
+        #[kani::stub(std::fmt::format, stub_format)]
+        fn $name() {
+            process_block_check($b0, $b1, $lc, $tc)
+        }
+    };
+}
+pb_h!(pb_consec_notc, 5, 6, 4, false);
+pb_h!(pb_consec_tc, 5, 6, 4, true);
+pb_h!(pb_gap_notc, 5, 7, 4, false);
+pb_h!(pb_gap_tc, 5, 7, 4, true);
+pb_h!(pb_consec_delivered_notc, 5, 6, 5, false);
+pb_h!(pb_first_notc, 1, 2, 0, false);
 
 // ===================================================================================== debugging aids (not part of any check)
 #[kani::proof]
 #[kani::unwind(12)]
 fn dbg_ser_de() {
-    let b = blk(1, kani::any(), any_digest(), kani::any());
+    let b = blk(1, vwit::any_u64(), any_digest(), vwit::any_u64());
     let bytes = bincode::serialize(&b).unwrap();
     let b2: Block = bincode::deserialize(&bytes).unwrap();
     assert!(b2.round == b.round);
@@ -180,7 +328,7 @@ fn dbg_ser_de() {
 #[kani::proof]
 #[kani::unwind(12)]
 fn dbg_store_de() {
-    let b = blk(1, kani::any(), any_digest(), kani::any());
+    let b = blk(1, vwit::any_u64(), any_digest(), vwit::any_u64());
     let bytes = bincode::serialize(&b).unwrap();
     let mut store = Store::new("x").unwrap();
     store.preload(b.digest().to_vec(), bytes);
@@ -192,4 +340,81 @@ fn dbg_store_de() {
     std::mem::forget(b2);
     std::mem::forget(got);
     std::mem::forget(store);
+}
+#[kani::proof]
+#[kani::unwind(12)]
+#[kani::stub(std::fmt::format, stub_format)]
+fn dbg_commit_one() {
+    commit_scenario::<2>([1, 2], 0);
+}
+#[kani::proof]
+#[kani::unwind(12)]
+#[kani::stub(std::fmt::format, stub_format)]
+fn dbg_parent_one() {
+    store::reset();
+    let mut env = mk_core(0, &EQ4);
+    let b0 = blk(1, 1, Digest::default(), 0);
+    let d0 = b0.digest();
+    env.store.preload(d0.to_vec(), bincode::serialize(&b0).unwrap());
+    let b1 = blk(2, 2, d0.clone(), 1);
+    store::script_strict(&[0]);
+    let p = run_ready(env.core.synchronizer.get_parent_block(&b1)).unwrap().unwrap();
+    assert!(p.round == 1);
+    let mut cnt = 0u64;
+    while cnt < p.round {
+        cnt += 1;
+    }
+    let mut cnt2 = 0usize;
+    while cnt2 < p.qc.votes.len() + 1 {
+        cnt2 += 1;
+    }
+    let g = run_ready(env.core.synchronizer.get_parent_block(&p)).unwrap().unwrap();
+    assert!(g.round == 0);
+    std::mem::forget(p);
+    std::mem::forget(g);
+    std::mem::forget(b1);
+    std::mem::forget(b0);
+    std::mem::forget(env);
+}
+
+/// Symbolic-round variant for a 2-chain: rounds r0 < r1 arbitrary, delivered prefix symbolic.
+#[kani::proof]
+#[kani::unwind(12)]
+#[kani::stub(std::fmt::format, stub_format)]
+fn c02_commit_sym2() {
+    store::reset();
+    let mut env = mk_core(0, &EQ4);
+    let r0: Round = vwit::any_u64();
+    let r1: Round = vwit::any_u64();
+    vwit::assume(r0 >= 1 && r1 > r0 && r1 < (1u64 << 62));
+    let b0 = blk(1, r0, Digest::default(), 0);
+    let d0 = b0.digest();
+    env.store.preload(d0.to_vec(), bincode::serialize(&b0).unwrap());
+    let b1 = blk(2, r1, d0.clone(), r0);
+    store::script_strict(&[0]);
+    let j: usize = vwit::any_usize();
+    vwit::assume(j < 2);
+    let lc = if j == 0 { 0 } else { r0 };
+    env.core.last_committed_round = lc;
+    let res = run_ready(env.core.commit(b1.clone()));
+    assert!(res.is_ok());
+    assert!(env.core.last_committed_round == r1);
+    if j == 0 {
+        let d = env.rx_commit.try_pop();
+        assert!(d.is_some(), "C02 committed block not delivered");
+        let d = d.unwrap();
+        assert!(d.round == r0, "C02 delivered out of chain order");
+        std::mem::forget(d);
+    }
+    let d = env.rx_commit.try_pop();
+    assert!(d.is_some(), "C02 committed block not delivered");
+    let d = d.unwrap();
+    assert!(d.round == r1, "C02 delivered out of chain order");
+    std::mem::forget(d);
+    assert!(env.rx_commit.len() == 0, "C02 extra block delivered (duplicate or genesis placeholder)");
+    vwit::cover!(j == 0 && r0 > 1);
+    vwit::cover!(j == 1 && r1 > r0 + 1);
+    std::mem::forget(res);
+    std::mem::forget((b0, b1, d0));
+    std::mem::forget(env);
 }
